@@ -43,6 +43,52 @@ def extra_items():
         add("(&self) -> %s" % r)
     for p in ["&'static Opq", "&'static str", "&'static [u8]", "Option<&'static Opq>"]:
         add("(&self, x: %s)" % p, "")
+    # --- families added after measuring which backend branches the programs above never reach (llvm-cov of diplomat-tool
+    # under all quick checks): slices of every element type, zero-sized structs on both Result arms, callbacks on methods of
+    # STRUCTS (kotlin derives the wrapper name from the struct), 'static borrows in struct fields, several special methods
+    # on one type (getter/setter pairs become one property in nanobind, iterator/iterable pairs)
+    for e in ["i8", "u16", "i16", "u32", "i32", "u64", "isize", "usize", "f32", "f64"]:
+        add("(&self, x: &[%s])" % e, "")
+        add("<'a>(&'a self) -> &'a [%s]" % e)
+        add("(&self, x: &mut [%s])" % e, "")
+    for r in ["Result<Zst, Zst>", "Result<Zst, En>", "Result<Strct, Zst>"]:     # (a zero-sized OUT-struct is refused at its definition)
+        add("(&self) -> %s" % r)
+    k = [300000]
+
+    def add_item(text, ctx, shape):
+        fam.append((k[0], text, ctx, shape))
+        k[0] += 1
+    for cbty in ["u8", "En", "Strct", "f64", "bool", "char", "&[u8]", "Strct, En", "u8, i64, f32"]:
+        for cbret in ["", " -> u8", " -> En", " -> Strct", " -> bool"]:
+            i = k[0]
+            add_item("    pub struct Sc%d {\n        pub a: u8,\n    }\n    impl Sc%d {\n        pub fn m(self, f: impl Fn(%s)%s) {}\n    }\n" % (i, i, cbty, cbret),
+                     "Sc%d::m" % i, "struct-method callback impl Fn(%s)%s" % (cbty, cbret))
+    for fty in ["&'static Opq", "DiplomatSlice<'static, u8>", "DiplomatStrSlice<'static>", "Option<&'static Opq>"]:
+        i = k[0]
+        add_item("    pub struct Sf%d {\n        pub f: %s,\n        pub g: u8,\n    }\n    #[diplomat::opaque]\n    pub struct Hf%d(u8);\n"
+                 "    impl Hf%d {\n        pub fn take(&self, s: Sf%d) {}\n        pub fn give(&self) -> Sf%d { todo!() }\n    }\n" % (i, fty, i, i, i, i),
+                 "Hf%d::take" % i, "struct field %s (input and returned)" % fty)
+    combos = [("getter+setter same name", '        #[diplomat::attr(auto, getter = "val")]\n        pub fn get_val(&self) -> u8 { 0 }\n'
+               '        #[diplomat::attr(auto, setter = "val")]\n        pub fn set_val(&mut self, v: u8) {}\n'),
+              ("two getters and a setter", '        #[diplomat::attr(auto, getter = "a")]\n        pub fn a(&self) -> u8 { 0 }\n'
+               '        #[diplomat::attr(auto, getter = "b")]\n        pub fn b(&self) -> En { En::A }\n'
+               '        #[diplomat::attr(auto, setter = "b")]\n        pub fn set_b(&mut self, v: En) {}\n'),
+              ("constructor + named constructors", '        #[diplomat::attr(auto, constructor)]\n        pub fn new() -> Box<Self> { todo!() }\n'
+               '        #[diplomat::attr(auto, named_constructor = "other")]\n        pub fn other(x: u8) -> Box<Self> { todo!() }\n'
+               '        #[diplomat::attr(auto, named_constructor = "fallible")]\n        pub fn fallible(x: u8) -> Result<Box<Self>, ()> { todo!() }\n'),
+              ("stringifier + comparison", '        #[diplomat::attr(auto, stringifier)]\n        pub fn show(&self, w: &mut DiplomatWrite) {}\n'
+               '        #[diplomat::attr(auto, comparison)]\n        pub fn cmp(&self, o: &Self) -> core::cmp::Ordering { todo!() }\n'),
+              ("indexer + arithmetic", '        #[diplomat::attr(auto, indexer)]\n        pub fn at(&self, i: usize) -> Option<u8> { None }\n'
+               '        #[diplomat::attr(auto, add)]\n        pub fn plus(&self, o: &Self) -> Box<Self> { todo!() }\n'
+               '        #[diplomat::attr(auto, sub_assign)]\n        pub fn minus_eq(&mut self, o: &Self) {}\n')]
+    for name, body in combos:
+        i = k[0]
+        add_item("    #[diplomat::opaque]\n    pub struct Sm%d(u8);\n    impl Sm%d {\n%s    }\n" % (i, i, body), "Sm%d" % i, "special combo: " + name)
+    i = k[0]
+    add_item("    #[diplomat::opaque]\n    pub struct It%d(u8);\n    impl It%d {\n        #[diplomat::attr(auto, iterator)]\n"
+             "        pub fn next(&mut self) -> Option<u8> { None }\n    }\n    #[diplomat::opaque]\n    pub struct Ib%d(u8);\n    impl Ib%d {\n"
+             "        #[diplomat::attr(auto, iterable)]\n        pub fn iter<'a>(&'a self) -> Box<It%d> { todo!() }\n    }\n" % (i, i, i, i, i),
+             "Ib%d::iter" % i, "special combo: iterable returning an iterator type")
     for p in ["char", "&[i64]", "Option<char>", "&[bool]", "&[char]", "Box<[u8]>", "Box<str>", "Box<DiplomatStr16>",
               "&[DiplomatStrSlice]", "&[DiplomatStr16Slice]", "&[DiplomatUtf8StrSlice]", "Option<&[DiplomatStrSlice]>",
               "Option<Box<[u8]>>", "Option<Box<str>>"]:
@@ -122,12 +168,50 @@ def lower_ok_subset(cases, prof, wd):
             rs = lib.read_ndjson(out)
             live = [c for c, x in zip(live, rs) if x["ok"]]
             continue
-        bad = set(ctx for ctx, _ in r["errors"])
-        nxt = [c for c in live if c[2] not in bad and c[2].split("::")[0] not in bad]
+        # an item is dropped when an error names one of the types it defines (or one of their methods)
+        bad = set(ctx.split("::")[0] for ctx, _ in r["errors"])
+        nxt = [c for c in live if not (set(re.findall(r'pub (?:struct|enum|trait) (\w+)', c[1])) & bad)]
         if len(nxt) == len(live):
             return []
         live = nxt
     return []
+
+
+DISABLED_USES = [("opaque param", "pub fn u(&self, x: &DisO) {}"), ("struct param", "pub fn u(&self, x: DisS) {}"),
+                 ("enum param", "pub fn u(&self, x: DisE) {}"), ("enum return", "pub fn u(&self) -> DisE { todo!() }"),
+                 ("struct return", "pub fn u(&self) -> DisS { todo!() }"), ("boxed opaque return", "pub fn u(&self) -> Box<DisO> { todo!() }"),
+                 ("result error", "pub fn u(&self) -> Result<u8, DisE> { todo!() }"), ("optional opaque param", "pub fn u(&self, x: Option<&DisO>) {}")]
+
+
+def disabled_usage_leg(rep, wd, events):
+    """a type disabled for a backend but still used by an enabled method or field: the backend has to say so through its
+    diagnostics (or cope) -- every backend has a 'Found usage of disabled type' path that nothing else reaches"""
+    n = 0
+    decl = ("    #[diplomat::attr(*, disable)]\n    #[diplomat::opaque]\n    pub struct DisO(u8);\n"
+            "    #[diplomat::attr(*, disable)]\n    pub struct DisS {\n        pub a: u8,\n    }\n"
+            "    #[diplomat::attr(*, disable)]\n    #[diplomat::attr(kotlin, error)]\n    pub enum DisE {\n        A,\n        B,\n    }\n")
+    progs = [(name, decl + "    #[diplomat::opaque]\n    pub struct User(u8);\n    impl User {\n        %s\n    }\n" % m) for name, m in DISABLED_USES]
+    progs.append(("struct field", decl + "    pub struct Holder {\n        pub e: DisE,\n        pub s: DisS,\n    }\n"
+                  "    #[diplomat::opaque]\n    pub struct User(u8);\n    impl User {\n        pub fn u(&self, h: Holder) {}\n    }\n"))
+    for b in lib.BACKENDS:
+        for name, body in progs:
+            src = os.path.join(wd, "disabled.rs")
+            open(src, "w").write("#[diplomat::bridge]\nmod ffi {\n" + body + "}\n")
+            r = lib.run_tool(b, src, os.path.join(wd, "out_dis_" + b))
+            rid = "%s|disabled:%s" % (b, name)
+            lowered = not r["lowering_errors"]
+            events.append({"ev": "Lower", "run": rid, "ok": lowered, "panic": False})
+            n += 1
+            if r["panicked"]:
+                site, msg = panic_msg(r["stderr"])
+                if lowered:
+                    events.append({"ev": "Generate", "run": rid, "outcome": "panic"})
+                rep.violation({"backend": b, "panic_site": site, "panic": msg, "shape": "use of a disabled type: " + name},
+                              {"source": open(src).read(), "stderr": r["stderr"][-1200:]})
+            elif lowered:
+                events.append({"ev": "Generate", "run": rid, "outcome": "files" if r["rc"] == 0 else "errors"})
+                rep.nontriv(rid)
+    return n
 
 
 def known_shape(b, shape):
@@ -241,6 +325,7 @@ def run(rep, tier):
                 nexec += len(rest)
                 for c in rest:
                     rep.nontriv("%s|%s" % (run_id, c[3]))
+    nexec += disabled_usage_leg(rep, wd, events)
     tr = os.path.join(wd, "trace.ndjson")
     good = [e for e in events]
     lib.write_ndjson(tr, good)
